@@ -105,6 +105,31 @@ pub fn clockify(spec: &mut WorldSpec, seed: u64, tag: &str, idx: usize, one_in: 
     }
 }
 
+/// One world in three that has sequences names a sequence like one of its own member commands (`build: [lint, build]`):
+/// sequences and commands are separate name spaces, `-s build` runs the members of the sequence, in order. Own
+/// generator over the finished scenario.
+pub fn seq_named_like_command(sc: &mut RunScenario, seed: u64, tag: &str, idx: usize) {
+    let mut rng = Rng::new(scenario_seed(seed, tag, idx));
+    if sc.spec.sequences.is_empty() || !rng.chance(1, 3) {
+        return;
+    }
+    let k = rng.below(sc.spec.sequences.len());
+    let members = sc.spec.sequences[k].1.clone();
+    if members.is_empty() {
+        return;
+    }
+    let new = members[rng.below(members.len())].clone();
+    if sc.spec.sequences.iter().any(|(n, _)| *n == new) {
+        return;
+    }
+    let old = std::mem::replace(&mut sc.spec.sequences[k].0, new.clone());
+    for s in sc.script.opts.sequences.iter_mut() {
+        if *s == old {
+            *s = new.clone();
+        }
+    }
+}
+
 fn gen_knobs(rng: &mut Rng, script: &mut RunScript) {
     script.rand_seed = Some(rng.next_u64() % 1_000_000);
     script.workers = Some(*rng.pick(&[1u32, 2, 4, 16]));
@@ -363,6 +388,7 @@ impl Property for C04 {
     fn generate(&self, seed: u64, idx: usize, tier: Tier) -> Value {
         let mut sc = gen_c04(seed, idx, tier);
         clockify(&mut sc.spec, seed, "C04-clock", idx, 6);
+        seq_named_like_command(&mut sc, seed, "C04-seqname", idx);
         let mut v = to_val(&sc);
         // one run in four has a `log tail` listener attached: ordering must not depend on who is listening
         let mut rng = Rng::new(scenario_seed(seed, "C04l", idx));
@@ -951,7 +977,9 @@ impl Property for C05 {
         }
     }
     fn generate(&self, seed: u64, idx: usize, tier: Tier) -> Value {
-        to_val(&gen_c05(seed, idx, tier))
+        let mut sc = gen_c05(seed, idx, tier);
+        seq_named_like_command(&mut sc, seed, "C05-seqname", idx);
+        to_val(&sc)
     }
     fn execute(&self, v: &Value) -> Outcome {
         let mut o = exec_with(v, check_c05);
